@@ -84,6 +84,26 @@ def p1_get_uniq(chk):
     tags = {"nowiki", "math", "imagemap", "gallery", "source", "pre", "ref", "timeline", "poem", "pages"} | set(tagext.default_registry.names())
     bad = [t for t in tags if not re.fullmatch("[a-z0-9]+", t.lower())]
     chk.static("uniq.tag_names_match_the_marker_grammar", not bad, f"{len(tags)} protected tag names; not [a-z0-9]+: {bad}")
+    # markers are meaningful only in the table of the parse that created them: Parser.parse must tokenise (and thereby
+    # register the protected regions through replace_tags) on every call, i.e. never serve nodes of an earlier parse
+    import os as _os
+    from mwlib.parser.templ import parser as _tp
+    stores = []
+    root = source.SRC
+    for dp, _dn, fns in _os.walk(root):
+        for f in fns:
+            if f.endswith((".py", ".pyx")):
+                try:
+                    txt = open(_os.path.join(dp, f), encoding="utf-8", errors="replace").read()
+                except OSError:
+                    continue
+                for ln, line in enumerate(txt.splitlines(), 1):
+                    if re.search(r"\buse_cache\s*=[^=]", line):
+                        stores.append((_os.path.relpath(_os.path.join(dp, f), root), ln, line.strip()))
+    only_decl = [x for x in stores if not (x[0].endswith("templ/parser.py") and x[2].replace(" ", "") == "use_cache=False")]
+    chk.static("templ.parser.Parser.parse.never_serves_nodes_of_an_earlier_parse", _tp.Parser.use_cache is False and not only_decl,
+               f"Parser.use_cache = {_tp.Parser.use_cache!r}; assignments elsewhere: {only_decl}",
+               {"use_cache": repr(_tp.Parser.use_cache), "assignments": only_decl}, "templ.parser.Parser.parse", True)
     src = ast.unparse(source.module(UNIQ).find("Uniquifier.replace_uniq"))
     chk.static("uniq.recogniser_accepts_the_marker_shape", "\\x7fUNIQ-[a-z0-9]+-\\\\d+-[a-f0-9]+-QINU\\x7f" in src, "regex of replace_uniq")
 
@@ -341,6 +361,49 @@ def bounded(chk):
                 break
         if fails3:
             break
+    # tag names are case-insensitive in wikitext
+    fails5, n5 = [], 0
+    for T in ("NOWIKI", "Nowiki", "Pre", "PRE", "Math", "MATH", "Source", "SOURCE", "TIMELINE", "noWiki"):
+        for b in ("''i'' [[x]] {{t}}", "a|b", "<b>h</b>"):
+            text = f"p <{T}>{b}</{T}> q"
+            n5 += 1
+            try:
+                got = collect_text(docs.parse(text))
+            except Exception as e:  # noqa: BLE001
+                fails5.append({"detail": f"{text!r} raised {type(e).__name__}", "witness": {"wikitext": text}, "class": "tag-case:raise"})
+                break
+            if b not in got or "\x7f" in got:
+                fails5.append({"detail": f"{text!r}: body not verbatim, got {got[:100]!r}", "witness": {"wikitext": text}, "class": f"tag-case:{T.lower()}"})
+                break
+        if fails5:
+            break
+    chk.bounded_result("opaque_bodies_under_tag_names_in_any_case", n5, n5, True,
+                       "10 spellings of the opaque tag names (upper / mixed case) x 3 bodies: body verbatim", fails5[:1])
+    # several articles in one process (what mw-render and the render workers do): every parse has its own expander
+    # and marker table; nothing of an earlier parse may reach a later one
+    fails4, n4 = [], 0
+    from mwlib.parser.expander import DictDB
+    body = "[[x|y]] ''i'' {{Foo|a=b}} {{{1}}} <b>h</b>"
+    tpls = {"Nw": f"<nowiki>{body}</nowiki>", "Src": f"<source lang=c>{body}</source>", "Mth": f"<math>{body}</math>", "Id": "{{{1}}}"}
+    pages = ["{{Nw}}", "<nowiki>other</nowiki> <math>z</math> {{Nw}} {{Mth}}", "{{Src}} {{Nw}}", "{{Id|<nowiki>" + body + "</nowiki>}}",
+             "<math>q</math>{{Id|<nowiki>" + body + "</nowiki>}}", "{{Nw}}", "{{Mth}}<nowiki>tail</nowiki>"]
+    for rounds in (1, 2):
+        for text in pages:
+            n4 += 1
+            try:
+                got = collect_text(uparser.parse_string("P", raw=text, wikidb=DictDB(**tpls), lang="en"))
+            except Exception as e:  # noqa: BLE001
+                fails4.append({"detail": f"{text!r} raised {type(e).__name__}", "witness": {"pages_parsed_in_order": pages, "failing": text}, "class": "sequence:raise"})
+                break
+            if body not in got or "\x7f" in got or ("other" in text and "other" not in got):
+                fails4.append({"detail": f"parse {n4} of a sequence of articles in one process: {text!r}: body not verbatim, got {got[:120]!r}",
+                               "witness": {"pages_parsed_in_order": (pages * rounds)[:n4]}, "class": "sequence"})
+                break
+        if fails4:
+            break
+    chk.bounded_result("opaque_bodies_over_a_sequence_of_articles", n4, n4, True,
+                       "7 articles using templates with opaque bodies, parsed twice over in one process with a fresh wikidb / expander each: every body verbatim in every parse",
+                       fails4[:1])
     chk.bounded_result("opaque_bodies_without_a_wikidb", n3, n3, True,
                        "two protected regions, the second inside <ref> / <poem> / <gallery> (bodies that are parsed again by the expander), through uparser.parse_string without a wikidb",
                        fails3[:1])
